@@ -5,6 +5,8 @@ import conv
 import syntax as SX
 
 COQ_IMPORTS = ['Model.CFG', 'Model.Chomsky', 'Model.CYK', 'Model.FreshName', 'Judge.Common', 'Judge.C08_judge', 'Judge.Extra_judge']
+PDA_FREE = True      # no PDA is involved: the recycling pass runs with GambaTools.pda_epsilon_closure_max_iterations = 3
+LOG_SAFE = True      # no printed output is read back: the recycling pass runs with GambaTools.enable_logging = True
 EXTRA_JUDGES = ['Extra']
 RULE = ('grammars: all one-rule grammars and a seeded sample of 2-3-rule grammars from right-hand sides of length <= 2 over {S,A,a,b}; random grammars with nullable start, cyclic unit rules, duplicate rules, '
         'right-hand sides up to length 5, variables named like the fresh-name candidates (S0, A, B ...), and grammars with 24-30 variables; 2 (quick) / 8 (thorough) PYTHONHASHSEED values. '
